@@ -272,6 +272,15 @@ pub fn c03(tier: &str, flavor: Flavor) -> Spec {
 fn o_c05(p: &Program, t: &Trace) -> Vec<Finding> {
     let mut v = o_reclaim(p, t);
     v.extend(o_agree(p, t));
+    if !is_settled(p) && t.evict_rounds.is_empty() {
+        // cleanup racing the client: with ample capacity on_evict is the sweep, and the sweep only
+        // takes entries whose own TTL has elapsed
+        for e in &t.ledger {
+            if e.kind == CbKind::Evict && e.exp_expired != Some(true) {
+                v.push(("evicted-unexpired".to_string(), format!("value {:?} was handed to on_evict by the cleanup although its TTL had not elapsed (or it has none)", e.val)));
+            }
+        }
+    }
     v
 }
 
@@ -317,6 +326,7 @@ pub fn c05(tier: &str, flavor: Flavor) -> Spec {
             jobs.push(job(single(&cfg, flavor, settled(&ops)), &[0], "c05"));
         }
     }
+    jobs.extend(tick_race_jobs(flavor, quick, "c05-tick-race"));
     Spec {
         id: "C05",
         jobs,
@@ -857,6 +867,7 @@ pub fn c08(tier: &str, flavor: Flavor) -> Spec {
             jobs.push(job(p, &[0], "c08-small-buffer"));
         }
     }
+    jobs.extend(tick_race_jobs(flavor, quick, "c08-tick-race"));
     Spec {
         id: "C08",
         jobs,
@@ -877,8 +888,42 @@ pub fn c08(tier: &str, flavor: Flavor) -> Spec {
 // ------------------------------------------------------------------------------------------------
 // C02
 
+/// Under the "newer wins" validator (a write is accepted iff its sequence number is higher than
+/// the resident one's) the value of a key that is never removed can only move forward: every
+/// lookup returns a value at least as new as any value an earlier lookup returned, and after
+/// quiescence the key holds the newest value ever written to it.
+fn o_newer_monotone(p: &Program, t: &Trace) -> Vec<Finding> {
+    let mut out = Vec::new();
+    if p.cfg.validator != ValidatorMode::Newer || p.threads.iter().chain(std::iter::once(&p.post)).flatten().any(|o| matches!(o, Op::Rem { .. } | Op::Clear | Op::Close | Op::Mut { .. } | Op::Adv { .. } | Op::AdvNs { .. })) {
+        return out;
+    }
+    let lookups: Vec<(&Rec, Val)> = t.recs.iter().filter_map(|r| match (&r.op, &r.res) {
+        (Op::Get { .. }, Res::Val(Some((v, _)))) => Some((r, *v)),
+        _ => None,
+    }).collect();
+    for (a, va) in &lookups {
+        for (b, vb) in &lookups {
+            if a.ret < b.call && a.op.key() == b.op.key() && Program::rank(vb.seq) < Program::rank(va.seq) {
+                out.push(("validator-order-broken".to_string(), format!("{} returned {:?} after an earlier lookup had already returned the newer {:?}: a write the validator must refuse replaced it", b.op.short(), vb, va)));
+                return out;
+            }
+        }
+    }
+    // the final lookup (post section, after quiescence) against every completed write
+    if let Some((l, v)) = lookups.iter().filter(|(r, _)| r.th == 0 && p.post.len() > 0).max_by_key(|(r, _)| r.call) {
+        let newest = t.recs.iter().filter(|r| r.ret < l.call && r.op.key() == l.op.key() && matches!(r.op, Op::Ins { .. } | Op::Pres { .. })).filter_map(|r| r.wrote).map(|w| Program::rank(w.seq)).max();
+        if let Some(n) = newest {
+            if Program::rank(v.seq) < n && t.recs.iter().all(|r| r.ret < l.call || std::ptr::eq(r, *l)) {
+                out.push(("validator-order-broken".to_string(), format!("after quiescence {} returned {:?} although a write with the newer sequence number {} had been accepted for the resident key", l.op.short(), v, n)));
+            }
+        }
+    }
+    out
+}
+
 fn o_c02(p: &Program, t: &Trace) -> Vec<Finding> {
     let mut v = o_lookup(p, t);
+    v.extend(o_newer_monotone(p, t));
     if is_settled(p) && p.cfg.max_cost >= 100 && p.cfg.keymode == KeyMode::Transparent {
         v.extend(o_map(p, t));
     }
@@ -971,6 +1016,23 @@ pub fn c02(tier: &str, flavor: Flavor) -> Spec {
     ] {
         jobs.push(job(conc(&cfg, flavor, &setup, threads), &[2], "c02-named"));
     }
+    // two writers of one resident key under a "newer wins" validator: the validator's verdict and
+    // the replacement are one atomic step, so the value of an always-resident key never goes back
+    {
+        let vcfg = Cfg { validator: ValidatorMode::Newer, ..Cfg::default() };
+        let va = [ins(1, 1, 0), Op::Pres { k: 1, c: 1 }, Op::Get { k: 1 }];
+        let vb = bodies(&va, if quick { 1 } else { 2 });
+        for a in &vb {
+            for b in &vb {
+                if !a.iter().chain(b.iter()).any(|o| matches!(o, Op::Ins { .. } | Op::Pres { .. })) {
+                    continue;
+                }
+                let mut p = conc(&vcfg, flavor, &[ins(1, 1, 0)], vec![a.clone(), b.clone()]);
+                p.post = vec![Op::Settle, Op::Get { k: 1 }];
+                jobs.push(job(p, &[2], "c02-validator-race"));
+            }
+        }
+    }
     // two keys sharing an index hash ("never a value of another key"), with TTLs and idle time:
     // an expired entry that has not been swept yet still keeps the other key out of its slot
     {
@@ -985,7 +1047,7 @@ pub fn c02(tier: &str, flavor: Flavor) -> Spec {
         oracle: o_c02,
         interesting: |_, t| t.recs.iter().any(|r| matches!(r.res, Res::Val(Some(_)))),
         rule: format!(
-            "keys 1 and 257 (same shard). E-seq: every history of depth {} over 13 symbols (I(k), I(k,1s), M(k), R(k), G(k), X, A(1s), S) containing a lookup, at max_cost 100 and 1 (forced evictions); every fully settled history of depth {} with exact-map comparison; E-conc: two writer threads x bodies of <= {} operations from {{I(1), I(257), M(1), R(1), X}} + a reader doing two lookups, 2 pre-states, preemption bound {}; 4 named programs at bound 2; settled histories on two keys forced onto one index hash with TTLs and idle time (expired, unswept owner); oracle on the recorded call/return history (value provenance, staleness after remove/clear + quiescence, no roll-back of in-place writes); non-trivial = a lookup returned a value",
+            "keys 1 and 257 (same shard). E-seq: every history of depth {} over 13 symbols (I(k), I(k,1s), M(k), R(k), G(k), X, A(1s), S) containing a lookup, at max_cost 100 and 1 (forced evictions); every fully settled history of depth {} with exact-map comparison; E-conc: two writer threads x bodies of <= {} operations from {{I(1), I(257), M(1), R(1), X}} + a reader doing two lookups, 2 pre-states, preemption bound {}; 4 named programs at bound 2; settled histories on two keys forced onto one index hash with TTLs and idle time (expired, unswept owner); two writers of one resident key under a 'newer wins' validator at bound 2 (the value never moves back); oracle on the recorded call/return history (value provenance, staleness after remove/clear + quiescence, no roll-back of in-place writes); non-trivial = a lookup returned a value",
             if quick { 4 } else { 5 },
             if quick { 3 } else { 4 },
             if quick { 1 } else { 2 },
@@ -1092,8 +1154,45 @@ pub fn c10(tier: &str, flavor: Flavor) -> Spec {
 // ------------------------------------------------------------------------------------------------
 // C11
 
+/// The sequential `post` section (run by client 0 after every thread was joined) on a cache with
+/// ample capacity: an insert without TTL that is followed by quiescence stays retrievable until the
+/// section removes, overwrites or clears it, however much idle time passes ("behaves like a fresh
+/// cache" after whatever the racing part did).
+fn o_post_map(p: &Program, t: &Trace) -> Vec<Finding> {
+    let mut out = Vec::new();
+    if p.cfg.max_cost < 100 || p.cfg.validator != ValidatorMode::Always {
+        return out;
+    }
+    let mut post: Vec<&Rec> = t.recs.iter().filter(|r| r.th == 0 && r.idx >= 500).collect();
+    post.sort_by_key(|r| r.idx);
+    for (i, w) in post.iter().enumerate() {
+        let k = match w.op {
+            Op::Ins { k, ttl_ms: 0, .. } if w.res == Res::Bool(true) => k,
+            _ => continue,
+        };
+        if !matches!(post.get(i + 1).map(|r| r.op), Some(Op::Settle)) {
+            continue;
+        }
+        for l in &post[i + 1..] {
+            match l.op {
+                Op::Rem { k: k2 } | Op::Ins { k: k2, .. } | Op::Pres { k: k2, .. } | Op::Mut { k: k2 } if k2 == k => break,
+                Op::Clear | Op::Close | Op::MaxCost { .. } => break,
+                Op::Get { k: k2 } if k2 == k => {
+                    if !matches!(&l.res, Res::Val(Some((v, _))) if Some(*v) == w.wrote) {
+                        out.push(("map-entry-lost".to_string(), format!("{} (post section, ample capacity, no TTL, applied before a quiescent point) but the later {} returned {:?}", w.op.short(), l.op.short(), l.res)));
+                        return out;
+                    }
+                }
+                _ => {}
+            }
+        }
+    }
+    out
+}
+
 fn o_c11(p: &Program, t: &Trace) -> Vec<Finding> {
     let mut v = o_clear_empty(p, t);
+    v.extend(o_post_map(p, t));
     v.extend(o_lookup(p, t));
     v.extend(o_agree(p, t));
     if is_settled(p) {
@@ -1162,6 +1261,15 @@ pub fn c11(tier: &str, flavor: Flavor) -> Spec {
             }
         }
     }
+    // a client re-filing a resident key in the expiry index (update with a TTL) while the clear
+    // wipes store and index; afterwards the key is used without TTL and must not expire
+    for a in [vec![ins(2, 1, 1000)], vec![ins(2, 1, 1000), ins(1, 1, 1000)], vec![ins(1, 1, 1000), Op::Get { k: 1 }]] {
+        for b in [vec![Op::Clear], vec![ins(2, 1, 1000), Op::Clear]] {
+            let mut p = conc(&cfg, flavor, &[ins(1, 1, 0), ins(2, 1, 0)], vec![a.clone(), b.clone()]);
+            p.post = vec![Op::Settle, Op::Rem { k: 1 }, Op::Rem { k: 2 }, Op::Settle, ins(1, 1, 0), Op::Settle, ins(2, 1, 0), Op::Settle, Op::Adv { ms: 1500 }, Op::Settle, Op::Adv { ms: 1500 }, Op::Settle, Op::Get { k: 1 }, Op::Get { k: 2 }];
+            jobs.push(job(p, &[2], "c11-conc-ttl-update"));
+        }
+    }
     // every metrics stripe restarts from zero
     jobs.extend(stripe_jobs(flavor, "c11-stripes"));
     Spec {
@@ -1170,7 +1278,7 @@ pub fn c11(tier: &str, flavor: Flavor) -> Spec {
         oracle: o_c11,
         interesting: |_, t| t.recs.iter().any(|r| r.op == Op::Clear && r.res == Res::Unit) && t.recs.iter().any(|r| ok_write(r)),
         rule: format!(
-            "E-seq: [every prefix of <= {} operations over {{I(k,none/1s/3s), R(k), G(k)}} k in 1..2] X [5 suffixes re-using the keys with another TTL / none, idling 3.5 s, looking again], not settled around X, preemption bound {}, with and without metrics; the same prefixes with settled suffixes under the exact-map oracle; E-conc: client A bodies of <= 2 operations from {{I(1), I(2,1s), R(1), G(1)}} against B in {{X, X;I(1,1s), X;G(1)}} x 2 pre-states at bound 2; one settled history through a clear per metrics stripe (keys 25..49); oracle: nothing inserted before the clear() call is resident/retrievable after it returned + quiescence, len/used/metrics zero unless something was inserted afterwards, fresh-cache behaviour for re-used keys; non-trivial = a successful write and a clear happened",
+            "E-seq: [every prefix of <= {} operations over {{I(k,none/1s/3s), R(k), G(k)}} k in 1..2] X [5 suffixes re-using the keys with another TTL / none, idling 3.5 s, looking again], not settled around X, preemption bound {}, with and without metrics; the same prefixes with settled suffixes under the exact-map oracle; E-conc: client A bodies of <= 2 operations from {{I(1), I(2,1s), R(1), G(1)}} against B in {{X, X;I(1,1s), X;G(1)}} x 2 pre-states at bound 2; TTL updates of resident keys racing the clear, followed (after the join) by remove, re-insert without TTL, 3 s of idle time and lookups; one settled history through a clear per metrics stripe (keys 25..49); oracle: nothing inserted before the clear() call is resident/retrievable after it returned + quiescence, len/used/metrics zero unless something was inserted afterwards, fresh-cache behaviour for re-used keys; non-trivial = a successful write and a clear happened",
             if quick { 2 } else { 3 },
             if quick { 1 } else { 2 }
         ),
@@ -1427,6 +1535,24 @@ fn o_c18(p: &Program, t: &Trace) -> Vec<Finding> {
     // an operation on one key must not un-charge (or charge) the other: C06 on colliding keys
     v.extend(o_agree(p, t));
     v
+}
+
+/// A client refreshing / overwriting / removing TTL entries while the cleanup tick that sweeps
+/// their (due) expiry bucket is running: the clock jumps past the deadlines, then the client goes
+/// on without waiting for quiescence.  Two TTL residents sharing a bucket, ample capacity.
+fn tick_race_jobs(flavor: Flavor, quick: bool, tag: &str) -> Vec<Job> {
+    let cfg = Cfg { max_cost: 100, ..Cfg::default() };
+    let alpha = [ins(1, 1, 5000), ins(2, 1, 0), ins(2, 1, 5000), Op::Rem { k: 1 }, Op::Get { k: 2 }, Op::Pres { k: 1, c: 1 }];
+    let mut jobs = Vec::new();
+    for body in bodies(&alpha, if quick { 2 } else { 3 }) {
+        let mut ops = vec![Op::Adv { ms: 2000 }];
+        ops.extend(body.iter().copied());
+        ops.extend([Op::Settle, Op::Get { k: 1 }, Op::Get { k: 2 }, Op::Settle]);
+        let mut p = single(&cfg, flavor, ops);
+        p.setup = vec![ins(1, 1, 1000), ins(2, 1, 1000)];
+        jobs.push(job(p, &[2], tag));
+    }
+    jobs
 }
 
 /// One settled history per metrics stripe (the counters are striped by key hash % 25): a hit, a
@@ -1835,13 +1961,23 @@ pub fn c15(tier: &str, flavor: Flavor) -> Spec {
             jobs.push(job(conc(&cfg, flavor, &[ins(1, 1, 0)], vec![a.clone(), b.clone()]), &[2], "c15-conc"));
         }
     }
+    // lookups flushed while the processor (admissions, updates, removes) or another client
+    // (update_max_cost) is inside the policy: a batch that was accepted is applied all the same
+    for capa in [0usize, 1] {
+        let cfg = Cfg { buffer_items: capa, metrics: true, num_counters: 1000, ..Cfg::default() };
+        for a in [vec![Op::Get { k: 1 }, Op::Get { k: 1 }], vec![Op::Get { k: 1 }, Op::Get { k: 2 }, Op::Get { k: 1 }]] {
+            for b in [vec![ins(3, 1, 0)], vec![ins(1, 2, 0)], vec![Op::Rem { k: 1 }], vec![Op::MaxCost { m: 50 }], vec![ins(3, 1, 0), ins(4, 1, 0)]] {
+                jobs.push(job(conc(&cfg, flavor, &[ins(1, 1, 0)], vec![a.clone(), b.clone()]), &[2], "c15-policy-busy"));
+            }
+        }
+    }
     Spec {
         id: "C15",
         jobs,
         oracle: o_c15,
         interesting: |_, t| t.snaps.last().and_then(|s| s.metrics.as_ref()).map(|m| m.gets_kept > 0).unwrap_or(false),
         rule: format!(
-            "buffer_items in 0..=3, num_counters 1000, metrics on, key 1 resident / key 2 absent: every lookup sequence of length {} over {{G(1), G(2), M(1)}} (a) with a settle after every lookup, bound 0 and (b) unsettled with the policy worker as a scheduled task at preemption bound 2 (the worker is interrupted between taking a batch and applying it); bursts of 4*b+1 and 6*b lookups (overflow of the 3-batch queue) at bound 2; two clients x <= 2 lookups sharing the ring at bound 2. Oracle at the final quiescent point: gets_kept + gets_dropped == lookups flushed in whole batches, drops only beyond 3 undelivered batches and never with prompt draining, estimate(k) >= min(16, lookups of k in kept batches); non-trivial = a batch was kept",
+            "buffer_items in 0..=3, num_counters 1000, metrics on, key 1 resident / key 2 absent: every lookup sequence of length {} over {{G(1), G(2), M(1)}} (a) with a settle after every lookup, bound 0 and (b) unsettled with the policy worker as a scheduled task at preemption bound 2 (the worker is interrupted between taking a batch and applying it); bursts of 4*b+1 and 6*b lookups (overflow of the 3-batch queue) at bound 2; two clients x <= 2 lookups sharing the ring at bound 2; lookups of one client racing admissions / updates / removes / update_max_cost of another (the policy lock is busy when the worker gets the batch) at bound 2. Oracle at the final quiescent point: gets_kept + gets_dropped == lookups flushed in whole batches, drops only beyond 3 undelivered batches and never with prompt draining, estimate(k) >= min(16, lookups of k in kept batches); non-trivial = a batch was kept",
             lens[0]
         ),
         assumptions: all_std(),
